@@ -261,6 +261,12 @@ where
         }
     }
 
+    /// Replaces the pending timeout of the bucket.
+    #[cfg(feature = "verif-hooks")]
+    pub fn verif_set_pending_timeout(&mut self, timeout: Duration) {
+        self.pending_timeout = timeout;
+    }
+
     /// Returns a reference to the pending node of the bucket, if there is any.
     pub fn pending(&self) -> Option<&PendingNode<TNodeId, TVal>> {
         self.pending.as_ref()
